@@ -55,7 +55,29 @@ Definition e_item (i : item) : list Z :=
   | _ => []
   end.
 
-Definition e_static (numkeys : list Z) (namekeys : list name) (x : ptree * list pmark * list item) : list Z :=
+Definition item_pair (i : item) : list (Z * Z) :=
+  match i with
+  | ICapture k => [(1, k)]
+  | IRef k => [(2, k)]
+  | ICondRef k => [(3, k)]
+  | _ => []
+  end.
+Fixpoint is_subseq (a b : list (Z * Z)) : bool :=
+  match a, b with
+  | [], _ => true
+  | _ :: _, [] => false
+  | (x1, x2) :: a', (y1, y2) :: b' => if (x1 =? y1) && (x2 =? y2) then is_subseq a' b' else is_subseq a b'
+  end.
+
+(* [imode] 1: the node sequence itself; 2: the tree optimizer may have deleted dead branches, so only
+   check that the nodes found in the real tree (sent along in [impl_items]) are a subsequence *)
+Definition e_items (imode : Z) (impl_items : list (Z * Z)) (its : list item) : list Z :=
+  if imode =? 1 then flat_map e_item its
+  else if imode =? 2 then
+    (if is_subseq impl_items (flat_map item_pair its) then [1] else 0 :: flat_map e_item its)
+  else [].
+
+Definition e_static (imode : Z) (impl_items : list (Z * Z)) (numkeys : list Z) (namekeys dollarkeys : list name) (x : ptree * list pmark * list item) : list Z :=
   let '(t, _, its) := x in
   let r := compile_maps t in
   e_zlist (t_caps t) ++ e_opt e_zlist (t_capnumlist t) ++ [t_captop t]
@@ -64,8 +86,9 @@ Definition e_static (numkeys : list Z) (namekeys : list name) (x : ptree * list 
   ++ e_opt e_pairs (r_caps r) ++ [r_capsize r]
   ++ e_names (get_group_names r) ++ e_res e_zlist (get_group_numbers r)
   ++ flat_map (fun k => e_name (group_name_from_number r k) ++ e_optz (dollar_num r k)) numkeys
-  ++ flat_map (fun s => [group_number_from_name r s] ++ e_optz (dollar_name r s)) namekeys
-  ++ flat_map e_item its.
+  ++ map (group_number_from_name r) namekeys
+  ++ flat_map (fun s => e_optz (dollar_name r s)) dollarkeys
+  ++ e_items imode impl_items its.
 
 Definition e_dynamic (ecma : bool) (numkeys : list Z) (namekeys : list name) (x : ptree * list pmark * list item) : list Z :=
   let '(t, _, _) := x in
@@ -74,15 +97,18 @@ Definition e_dynamic (ecma : bool) (numkeys : list Z) (namekeys : list name) (x 
   ++ flat_map (fun k => e_optz (group_by_number r k)) numkeys
   ++ flat_map (fun s => e_optz (group_by_name r s)) namekeys.
 
-Definition d_case17 : dec (bool * Z * list gtok * list Z * list name) :=
+(* case: MaintainCaptureOrder flag, option word, tokens, number keys, name keys (arbitrary strings),
+   names usable inside "${...}" *)
+Definition d_case17 : dec (bool * Z * list gtok * list Z * list name * list name * Z * list (Z * Z)) :=
   dlet mco <- d_bool ; dlet o <- d_z ; dlet ts <- d_toks ;
-  dlet nk <- d_zlist ; dlet sk <- d_list d_name ; d_ret (mco, o, ts, nk, sk).
+  dlet nk <- d_zlist ; dlet sk <- d_list d_name ; dlet dk <- d_list d_name ;
+  dlet imode <- d_z ; dlet ii <- d_list (d_pair d_z d_z) ; d_ret (mco, o, ts, nk, sk, dk, imode, ii).
 
 (* 1701: Parse + Write + the Regexp-level lookups.  1702: the Match-level lookups. *)
 Definition run17 (leg : Z) (args : list Z) : list Z :=
   match d_case17 args with
-  | Some ((mco, o, ts, nk, sk), []) =>
-      if leg =? 1701 then e_res (e_static nk sk) (parse mco o ts)
+  | Some ((mco, o, ts, nk, sk, dk, imode, ii), []) =>
+      if leg =? 1701 then e_res (e_static imode ii nk sk dk) (parse mco o ts)
       else if leg =? 1702 then e_res (e_dynamic (has o opt_e) nk sk) (parse mco o ts)
       else bad_case
   | _ => bad_case
